@@ -48,6 +48,11 @@ class TNum(T):
             f = z3.And(f, z3.Or(Z.is_ninf(t), z3.And(Z.is_finite(t), Z.rval(t) <= self.hi)))
         return f
 
+    @property
+    def static_finite(self):
+        """values of this shape are finite int/float (no bool, inf, nan): arithmetic needs no case analysis"""
+        return not (self.inf or self.nan or self.boolean)
+
     def describe(self):
         return "Num(inf=%s,nan=%s,bool=%s,only=%s,lo=%s,hi=%s)" % (self.inf, self.nan, self.boolean, self.only, self.lo if self.lo is not None else self.lo_strict, self.hi)
 
